@@ -26,14 +26,14 @@ _TRUST = "Trusted: SciPy/NumPy determinism for identical inputs (self-tested by 
 CLAIMED = {
     "C06": dict(
         category="exploration",
-        text="Seeded search over (problem, method, peer behaviour at the solver seam): real SciPy, SciPy with a truncated budget, and scripted answers from each method's own (success, status, message) table with feasible / constraint-violating / bound-violating points, including the SLSQP->trust-constr retry entry. Oracle OPTIMAL => feasible, evaluated with harness-side constraint objects and the shadow state's declared bounds, tolerance looser than optyx's own. Sampling; thorough tier sweeps the whole response-class table per scenario.",
+        text="Seeded search over (problem, method, peer behaviour at the solver seam): real SciPy, SciPy with a truncated budget, and scripted answers from each method's own (success, status, message) table with feasible / constraint-violating / bound-violating points, including the SLSQP->trust-constr retry entry. Oracle OPTIMAL => feasible, evaluated twice (optyx's own constraint objects on the returned values, NaN = violated; and the constraints as written in the spec under the harness's independent pure-Python semantics) plus the shadow state's declared bounds, tolerance looser than optyx's own. Sampling; thorough tier sweeps the whole response-class table per scenario.",
         design_ref="DESIGN.md §5/C06",
         note=_TRUST + " Scripted answers are confined to combinations SciPy documents or was observed to produce.",
         technique="deterministic simulation: solver-seam response injection (real / truncated / scripted peer)",
     ),
     "C07": dict(
         category="exploration",
-        text="Same engine as C06 with maximise problems, constant terms, vector / matrix / symmetric-matrix variables and every termination path (OPTIMAL, MAX_ITERATIONS, INFEASIBLE, UNBOUNDED with a ray, FAILED with values, x=None). Oracle: objective_value = user's objective at the returned values; keys(values) = exactly the mentioned variables (from the harness's own AST); handles retrieve the right shape and position. For a fixed solver answer this is a pure function; the simulation contributes the answer space.",
+        text="Same engine as C06 with maximise problems, constant terms, vector / matrix / symmetric-matrix variables and every termination path (OPTIMAL, MAX_ITERATIONS, INFEASIBLE, UNBOUNDED with a ray, FAILED with values, x=None). Oracle: objective_value = user's objective at the returned values (optyx's expression object and, independently, the objective as written in the spec); keys(values) = exactly the mentioned variables (from the harness's own AST); handles and views retrieve the right shape and position. For a fixed solver answer this is a pure function; the simulation contributes the answer space.",
         design_ref="DESIGN.md §5/C07",
         note=_TRUST,
         technique="deterministic simulation: solver-seam response injection, self-consistency oracle",
@@ -47,7 +47,7 @@ CLAIMED = {
     ),
     "C18": dict(
         category="exploration",
-        text="Two parts. (1) Simulation: the C13 edit/solve history machine on pools with integer/binary variables and strict solves; 'raises before any solver runs' is checked as an ordering over seam events (zero solver entries and zero callbacks before the raise), also on problems reached by editing a solved problem (cached variable list / LP data); the relaxation clause uses a pristine-process solve of the same shadow state with continuous domains, compared tightly incl. the data handed to the solver. (2) Plain enumeration, labelled as such: declaration route x domain x model x method x strict, plus domain and [0,1] bounds of every element through every route.",
+        text="Two parts. (1) Simulation: the C13 edit/solve history machine on pools with integer/binary variables and strict solves; 'raises before any solver runs' is checked as an ordering over seam events (zero solver entries and zero callbacks before the raise), also on problems reached by editing a solved problem (cached variable list / LP data); the relaxation clause uses a pristine-process solve of the same shadow state with continuous domains, compared tightly incl. the data handed to the solver; warnings are observed under Python's default once-per-location registry with every solve issued from its own call site (or, for some, from one shared call site like a line in a loop). (2) Plain enumeration, labelled as such: declaration route x domain x model x method x strict, plus domain and [0,1] bounds of every element through every route.",
         design_ref="DESIGN.md §5/C18",
         note=_TRUST + " The route x method product is enumeration, not simulation.",
         technique="deterministic simulation: solver-entry spy + history machine (plus an enumerated route x method table)",
